@@ -1,5 +1,5 @@
 #!/usr/bin/env python3
-"""tools/detect-all.py [-j N] [filter]
+"""tools/detect-all.py [-j N] [--resume <log of an interrupted run>] [filter]
 Detection regression: applies every kept property-breaking change (the sub-agents' seeds under
 /verif/seeded, my own patches and the reverted fixes under /verif/mutants) to a scratch worktree
 and runs the quick check(s) expected to catch it (tools/mutant.sh: /repo is never modified).
@@ -12,6 +12,14 @@ jobs = 4
 args = sys.argv[1:]
 if args and args[0] == '-j':
     jobs = int(args[1]); args = args[2:]
+resume = {}
+if args and args[0] == '--resume':
+    # lines of the interrupted run: "<name> [checks] CAUGHT|silent [INFRA]"
+    for l in open(args[1], errors='replace'):
+        m = re.match(r"^(\S+:\S+) \[.*?\] (CAUGHT|silent) ?(INFRA)?\s*$", l)
+        if m:
+            resume[m.group(1)] = (m.group(2) == 'CAUGHT', bool(m.group(3)))
+    args = args[2:]
 flt = args[0] if args else ''
 
 # my own patches: patch -> (checks, expectation)
@@ -53,7 +61,9 @@ work = [w for w in work if flt in w[0]]
 
 def run(w):
     name, patch, checks, expect = w
-    out = subprocess.run([ROOT + '/tools/mutant.sh', patch] + checks, capture_output=True, text=True).stdout
+    if name in resume:
+        return name, checks, expect, resume[name][0], resume[name][1], '(result of the interrupted run)'
+    out = subprocess.run([ROOT + '/tools/mutant.sh', patch] + checks, capture_output=True, text=True, errors='replace').stdout
     res = re.findall(r'== \S+ vs (C\d+): exit=(\d+) violations=(\d+)', out)
     first = re.findall(r'^violation: (.*)$', out, re.M)
     caught = any(rc == '1' and int(v) > 0 for _, rc, v in res)
